@@ -2,7 +2,7 @@
 import ast
 
 from .. import cfg as cfgmod
-from ..fde import FDE, Obj, Opaque, Raised
+from ..fde import FDE, Obj, Opaque, Raised, Unsupported
 from ..mutate import Mutant, in_func, delete_stmt, in_module
 from ..report import AnalysisError
 from ..srcmodel import unparse, norm, walk_no_nested, calls_in, fold_const
@@ -315,6 +315,61 @@ def include_history(repo, run):
         run.ok('C06.R2', fi, 'a second include of the same name from another directory is looked up next to its own including file')
 
 
+def subbuilder_reads_like_builder(repo, run):
+    """a file that an enclosing builder has already read (an earlier sibling: `!include [defaults, experiment]` where experiment
+    itself includes defaults) is read again by the sub-builder like any other file - the same document sequence builds the same config
+    however it is split over includes. Builder and sub-builder are initialised by their own constructors and the enclosing builder reads
+    the file through its own add_source (evaluated; open / the parser are stand-ins), so state kept about sources takes part."""
+    import posixpath
+    binit = repo.func('Builder.__init__')
+    sinit = repo.func('SubBuilder.__init__')
+    sub_add = repo.resolve('SubBuilder', 'add_source')
+    if sub_add is None:
+        raise AnalysisError('C06.R8: SubBuilder.add_source not found')
+    builder = Obj('builder', 'Builder')
+    fde_guard(lambda: FDE(repo).call(binit, builder))
+    parsed = []
+
+    def stub(n, recv, a, k):
+        if n == 'read':
+            return 'CONTENT'
+        if n in ('default_safe_flag', 'default_filename'):
+            return Opaque('cm')
+        if n == 'get_current_stage_idx':
+            return 0
+        raise Unsupported('call of ' + n)
+
+    def mk():
+        f = FDE(repo, stubs={'read', 'default_safe_flag', 'default_filename', 'get_current_stage_idx'}, stub=stub, max_depth=10)
+        import pathlib
+        import os as _os
+        f.externals = {'pathlib.Path': pathlib.Path, 'os.PathLike': _os.PathLike}
+        f.extcalls = {'yaml.parse': lambda src, *a, **k: (parsed.append(src), ['DOC'])[1], 'parse': lambda src, *a, **k: (parsed.append(src), ['DOC'])[1],
+                      'open': lambda name, mode='r': Obj('file', 'TextIO'), 'os.path.expanduser': lambda x: x, 'os.path.isfile': lambda x: True, 'os.path.exists': lambda x: True,
+                      'os.path.abspath': lambda x: posixpath.normpath(posixpath.join('/cwd', x)), 'os.path.normpath': posixpath.normpath, 'os.path.realpath': lambda x: posixpath.normpath(posixpath.join('/cwd', x)),
+                      'os.fspath': lambda x: str(x), 'os.getcwd': lambda: '/cwd', 'os.path.join': posixpath.join, 'os.path.dirname': posixpath.dirname, 'os.path.isabs': posixpath.isabs,
+                      'os.path.normcase': lambda x: x, 'os.path.basename': posixpath.basename}
+        return f
+    try:
+        r0 = mk().call(repo.func('Builder.add_source'), builder, '/d/defaults.yaml', raw_yaml=False)
+        if r0.raised:
+            raise AnalysisError('C06.R8: Builder.add_source of an existing file raises %s with stand-in open / parser' % r0.raised)
+        sub = Obj('sub', 'SubBuilder')
+        r1 = mk().call(sinit, sub, ['inc'], builder)
+        if r1.raised:
+            raise AnalysisError('C06.R8: SubBuilder.__init__ raises %s' % r1.raised)
+        n0 = len(parsed)
+        r = mk().call(sub_add, sub, '/d/defaults.yaml', raw_yaml=False, safe=None)
+    except Unsupported as e:
+        raise AnalysisError('C06.R8: sub-builder source row not evaluable: %s' % e)
+    if r.raised:
+        run.violation('C06.R8', sub_add, 'a sub-builder reads a file its enclosing builder has read before', 'the enclosing builder has read /d/defaults.yaml as an earlier source; a sub-builder (an include further down) asked for the same file raises %s - `!include [defaults, experiment]` with experiment including defaults fails while the flat sequence [defaults, defaults, experiment] builds' % r.raised)
+    elif len(parsed) != n0 + 1 or sub.f.get('stages') != ['DOC']:
+        run.violation('C06.R8', sub_add, 'a sub-builder reads a file its enclosing builder has read before', 'the file is not parsed again for the sub-builder (parsed %d time(s), stages %r): the included documents are missing from the stream' % (len(parsed) - n0, sub.f.get('stages')))
+    else:
+        run.ok('C06.R8', sub_add, 'a sub-builder reads a file the enclosing builder has already read like any other file')
+
+
 def r4(repo, run):
     init = repo.func('StreamNode.__init__')
     probs = []
@@ -504,6 +559,7 @@ def check(repo, run, tier):
     g(unitrules.current_file_tracking, repo, run, 'C06.R10')
     g(unitrules.add_source_table, repo, run, 'C06.R2')
     g(buildrules.pipeline_from_sources, repo, run, 'C06.R9')
+    g(subbuilder_reads_like_builder, repo, run)
     g(include_history, repo, run)
     g.done()
 
@@ -538,6 +594,7 @@ def mutants(repo):
         Mutant('flatten-ignores-premerge-result', lambda r: in_func(r, 'Builder.flatten', "if new_stage is not self.stages[0]:", "if new_stage is self.stages[0]:"), ['C06.R9']),
         Mutant('stage-count-frozen-before-expansion', lambda r: in_func(r, 'Builder.preprocess', "        i = 0\n        while i < len(self.stages):", "        i = 0\n        count = len(self.stages)\n        while i < count:"), ['C06.R9']),
         Mutant('documents-without-keys-not-merged', lambda r: in_func(r, 'Builder.flatten', "            root = root.ayns.merge(self.stages[i])", "            if not self.stages[i].ayns.children_count():\n                continue\n            root = root.ayns.merge(self.stages[i])"), ['C06.R9']),
+        Mutant('subbuilder-refuses-files-read-by-the-parent', lambda r: in_func(r, 'Builder.add_source', "        try:\n            if filename is not None:", "        if getattr(self, 'parent', None) is not None and source in getattr(self.parent, '_seen_sources', ()):\n            raise ValueError('Circular include')\n        self.__dict__.setdefault('_seen_sources', []).append(source)\n        try:\n            if filename is not None:"), ['C06.R8']),
         Mutant('splice-reversed', lambda r: in_func(r, 'Builder.preprocess', "self.stages[i:i+1] = new_stage.stages", "self.stages[i:i+1] = reversed(new_stage.stages)"), ['C06.R1']),
         Mutant('cursor-advances-by-one', lambda r: in_func(r, 'Builder.preprocess', "i += len(new_stage.stages)", "i += len(new_stage.stages[:1])"), ['C06.R1']),
         Mutant('cwd-before-file-dir', lambda r: in_func(r, 'Builder.get_lookup_dirs', "        if ref_point is not None:\n            yield os.path.dirname(ref_point)\n        yield os.getcwd()", "        yield os.getcwd()\n        if ref_point is not None:\n            yield os.path.dirname(ref_point)"), ['C06.R2']),
